@@ -193,7 +193,10 @@ CATALOG: List[Cfg] = [
     # ---------------- BinPack
     _c("binpack-5", "bin_pack",
        "BinPack(G.bin_pack.RandomGenerator(5, 10, split_num_same_items=2), obs_num_ems=6)",
-       keys_quick=1, keys_thorough=3, horizon="5", max_states_quick=400),
+       keys_quick=3, keys_thorough=8, horizon="5", max_states_quick=1500),
+    _c("binpack-7-ems8", "bin_pack",
+       "BinPack(G.bin_pack.RandomGenerator(7, 14, split_num_same_items=2), obs_num_ems=8)", kind="awkward",
+       keys_quick=1, keys_thorough=4, horizon="7", max_states_quick=3000, max_states_thorough=40_000),
     _c("binpack-5-ems2-sparse", "bin_pack", "BinPack(G.bin_pack.RandomGenerator(5, 10, split_num_same_items=2), "
        "obs_num_ems=2, normalize_dimensions=False, reward_fn=R.bin_pack.SparseReward())", kind="awkward",
        keys_quick=1, keys_thorough=2, horizon="5", max_states_quick=400),
